@@ -122,3 +122,37 @@ theorem selectznz_spec_n (c : Nat) (hc : c ≤ 1) (u v : L4) (hu : u.ok) (hv : v
     intro z nz; unfold FiatScalar.cmovznzU64 cmovznz; rfl
   rw [t, t, t, t, cmovznz_spec c _ _ hc u0 v0, cmovznz_spec c _ _ hc u1 v1, cmovznz_spec c _ _ hc u2 v2, cmovznz_spec c _ _ hc u3 v3]
   split <;> rfl
+
+/-- scalar `Equal`: 1 exactly when the four limbs agree -/
+theorem equal_spec_n (e u : L4) (he : e.ok) (hu : u.ok) : FiatScalar.equal e u = if e = u then 1 else 0 := by
+  obtain ⟨e0, e1, e2, e3⟩ := he
+  obtain ⟨u0, u1, u2, u3⟩ := hu
+  unfold FiatScalar.equal
+  simp only
+  have hlt : Nat.lor (Nat.lor (Nat.lor (Nat.xor e.l0 u.l0) (Nat.xor e.l1 u.l1)) (Nat.xor e.l2 u.l2)) (Nat.xor e.l3 u.l3) < W :=
+    lor_lt_W _ _ (lor_lt_W _ _ (lor_lt_W _ _ (xor_lt_W _ _ e0 u0) (xor_lt_W _ _ e1 u1)) (xor_lt_W _ _ e2 u2)) (xor_lt_W _ _ e3 u3)
+  rw [isZero_spec_n _ hlt]
+  have key : Nat.lor (Nat.lor (Nat.lor (Nat.xor e.l0 u.l0) (Nat.xor e.l1 u.l1)) (Nat.xor e.l2 u.l2)) (Nat.xor e.l3 u.l3) = 0 ↔ e = u := by
+    rw [lor_eq_zero, lor_eq_zero, lor_eq_zero, xor_eq_zero, xor_eq_zero, xor_eq_zero, xor_eq_zero]
+    constructor
+    · rintro ⟨⟨⟨h0, h1⟩, h2⟩, h3⟩
+      cases e; cases u; simp_all
+    · rintro rfl; exact ⟨⟨⟨rfl, rfl⟩, rfl⟩, rfl⟩
+  by_cases h : e = u
+  · rw [if_pos (key.mpr h), if_pos h]
+  · rw [if_neg (fun hh => h (key.mp hh)), if_neg h]
+
+/-- scalar `IsFEZero`: 1 exactly when all four limbs are 0 -/
+theorem isFEZero_spec (e : L4) (he : e.ok) : FiatScalar.isFEZero e = if e = ⟨0, 0, 0, 0⟩ then 1 else 0 := by
+  obtain ⟨e0, e1, e2, e3⟩ := he
+  unfold FiatScalar.isFEZero
+  have hlt : Nat.lor (Nat.lor (Nat.lor e.l0 e.l1) e.l2) e.l3 < W := lor_lt_W _ _ (lor_lt_W _ _ (lor_lt_W _ _ e0 e1) e2) e3
+  rw [isZero_spec_n _ hlt]
+  have key : Nat.lor (Nat.lor (Nat.lor e.l0 e.l1) e.l2) e.l3 = 0 ↔ e = ⟨0, 0, 0, 0⟩ := by
+    rw [lor_eq_zero, lor_eq_zero, lor_eq_zero]
+    constructor
+    · rintro ⟨⟨⟨h0, h1⟩, h2⟩, h3⟩; cases e; simp_all
+    · rintro rfl; exact ⟨⟨⟨rfl, rfl⟩, rfl⟩, rfl⟩
+  by_cases h : e = ⟨0, 0, 0, 0⟩
+  · rw [if_pos (key.mpr h), if_pos h]
+  · rw [if_neg (fun hh => h (key.mp hh)), if_neg h]
